@@ -272,6 +272,10 @@ def run(tier, replay=None):
         traces = [t for r in vlib.parallel_map(_replay_batch, [(tid + i, b, buf, short) for i, b in zip(range(0, len(runs), 2000), vlib.chunked(runs, 2000))]) for t in r]
         tid += len(runs)
         validate(chk, traces, label)
+    # liveness: the iteration terminates on every finite input under every chunking (weak fairness on the step)
+    cfg = ('SPECIFICATION FairSpec\nCONSTANTS Alphabet = {126, 42, 10, 32, 65}\n MaxText = %d\n Buf = 2\n Short = TRUE\n EmitAll = FALSE\nPROPERTY Terminates\n' % (4 if q else 5))
+    res = vlib.tlc_must_pass(run_tlc('Tokenizer', cfg, timeout=3000, workers=8), 'Tokenizer termination')
+    chk.add_tlc(res, 'Tokenizer liveness (Terminates under WF)')
     # real-size documents, buffer untouched
     traces = []
     for label, triple, body in big_docs(tier, rnd):
